@@ -1,6 +1,8 @@
 (* C15: an interrupted Markov level resumes at the very next guess. *)
-From Coq Require Import List Bool NArith ZArith.
+From Coq Require Import List Bool NArith ZArith Sorting.Permutation.
 From Pcfg Require Import OmenSpec Omen OmenCorr OmenProofs OmenProofs2 OmenProofs3 OmenProofs4 OmenProofs5.
+From Coq Require Import Floats.
+From Pcfg Require Import ProbAlg F64 Next NextSpec NextProofs Expand MarkovSession MarkovSessionProofs MarkovSessionFacts.
 From PcfgGen Require Import Consts_gen.
 Import ListNotations.
 
@@ -65,23 +67,259 @@ Theorem C15_example_hypotheses :
   1 < length (level_strings (Gex 10) 2%Z).
 Proof. exact (conj (proj1 Gex_continuation) (proj1 (proj2 Gex_continuation))). Qed.
 
-(* NOT PROVED here (outside the OMEN model; exercised by the oracle of
-   harness/props/C15.py on the real session only):
+(* ================================================================== *)
+(* "... and then continues with the rest of the run" and the tied-level
+   corner, over the combined session model MarkovSession.v (a Markov
+   pre-terminal inside Next.v's priority-queue run; what _save_session writes
+   and the order in which run(load_session=True) restores it are transcribed
+   in that file's header).
 
-   C15_then_rest_partial -- full statement: after the remainder of the level the
-   resumed session continues with the queue restored from the probability of
-   the pop that followed the level, i.e. emits every pre-terminal of the
-   uninterrupted run after the level, repeating only pre-terminals whose
-   probability equals the saved one (this is C08's restore theorem applied to
-   the saved max_probability; Next.v / RestoreProofs.v are its model).
+   Common situation of the two theorems: the uninterrupted run (any queue
+   meeting the heap contract) pops U1, then the Markov pre-terminal x of level
+   T, then y, then U2.  The quit is seen after guess j+1 of the level.  The
+   code pops y BEFORE it checks the quit flag, so the saved max_probability is
+   y's, and y has not been guessed.  pop' is the queue of the new process,
+   c / c2 the Optimizer memo tables of the two processes (any sound ones). *)
 
-   C15_tied_level_repeats_partial -- full statement: if the pop that follows the
-   level has exactly the level's probability, the level's own pre-terminal is
-   in that tied group and is generated once more in full after its remainder,
-   and this is the only repetition of its strings.  The oracle classifies such
-   cuts ("cuts_tied" in the evidence) and checks that the level is regenerated
-   ONLY then. *)
+Theorem C15_source_parent_test_is_le : parent_around_strict = false.
+Proof. reflexivity. Qed.
+
+(* control-flow facts re-extracted from the source on every run
+   (harness/consts/p2_markov_session.py); the first two are parameters of the
+   model, the theorems below are stated WITH the extracted values and proved for
+   the values the code has: *)
+(* the session loop pops first and tests the quit flag afterwards *)
+Theorem C15_source_quit_check_after_pop : session_quit_check_after_pop = true.
+Proof. reflexivity. Qed.
+(* run(load_session=True) calls restore_omen before the loop *)
+Theorem C15_source_omen_restored_before_loop : session_omen_restored_before_loop = true.
+Proof. reflexivity. Qed.
+(* PcfgQueue.next stores the popped item's probability in max_probability *)
+Theorem C15_source_next_records_popped_probability : queue_next_records_popped_probability = true.
+Proof. reflexivity. Qed.
+
+(* C15_then_rest: the interrupted session printed everything before the level
+   and the first j+1 strings of the level and saved y's probability; the
+   resumed session prints exactly the remaining strings of the level and then
+   the guesses of the pre-terminals B, where B is, up to the order inside groups
+   of equal probability, every pre-terminal the uninterrupted run emits after
+   the level (y :: U2) plus exactly those emitted up to the level whose
+   probability EQUALS the saved one; each once, in non-increasing order, and
+   the resumed queue is then empty. *)
+Theorem C15_then_rest :
+  forall (A : palg) (upper_c : N -> str) (g : sgram A)
+         (pop pop' : queue A -> option (item A * queue A))
+         (U1 : list (item A)) (x y : item A) (U2 : list (item A)) (T : Z) (j : nat)
+         (c c2 : cache) (starts : nat * nat) (cleared : bool) (calls n : nat),
+  wf (sg_rs g) -> pop_ok_okb pop -> pop_ok_okb pop' ->
+  pops pop g (total (sg_rs g)) = U1 ++ x :: y :: U2 ->
+  markov_level g (ipt x) = Some T ->
+  j < length (level_strings (sg_omen g) T) ->
+  cache_ok (cp_fast (sg_omen g)) (og_max_level (sg_omen g)) c ->
+  cache_ok (cp_fast (sg_omen g)) (og_max_level (sg_omen g)) c2 ->
+  mc_starts (ip_at (sg_omen g)) (ln_at (sg_omen g)) (og_max_level (sg_omen g)) omen_first_object_extra = Some starts ->
+  length (skipn (S j) (level_strings (sg_omen g) T)) < calls ->
+  length (filter (below (iprob y)) (all_preterminals (sg_rs g))) <= n ->
+  exists f r,
+    interrupted upper_c omen_optimizer_max_length omen_first_object_extra session_quit_check_after_pop pop g (length U1) (S j) c =
+      Saved (stream upper_c g U1 ++ firstn (S j) (level_strings (sg_omen g) T)) f /\
+    sf_max_prob f = iprob y /\
+    resumed_session omen_optimizer_max_length omen_first_object_extra parent_around_strict cleared
+                    pop' g f calls c2 n = Some r /\
+    resumed_out upper_c session_omen_restored_before_loop g r =
+      skipn (S j) (level_strings (sg_omen g) T) ++ stream upper_c g (resumed_pops r) /\
+    Permutation (resumed_pops r)
+                (filter (fun z => peq (iprob z) (iprob y)) (U1 ++ [x]) ++ y :: U2) /\
+    nonincreasing (resumed_pops r) /\ NoDup (resumed_pops r) /\
+    pending (rr_queue r) = [].
+Proof.
+  exact (fun A up g pop pop' U1 x y U2 T j c c2 starts cleared calls n Hwf Hp Hp' HU HT Hj Hc Hc2 Hs =>
+           then_rest up omen_optimizer_max_length omen_first_object_extra C15_source_first_object_range
+                     g Hwf pop pop' Hp Hp' U1 x y U2 HU T HT j Hj c c2 Hc Hc2 starts Hs cleared calls n).
+Qed.
+
+(* C15_tied_level_repeats: what the code does with the interrupted level's OWN
+   pre-terminal x.  The restore walk treats the 'M' base structure like any
+   other, and the saved probability is y's: x is popped again by the resumed
+   run iff its probability equals y's (it is then in the tied group of C08).
+   In that case it is popped exactly once and its level is printed once more IN
+   FULL after the remainder; otherwise never.  And that is the only repetition
+   of its strings: a string that no other pre-terminal of the grammar produces
+   occurs in (interrupted output ++ resumed output) exactly as often as in the
+   level, twice that when tied. *)
+Theorem C15_tied_level_repeats :
+  forall (A : palg) (upper_c : N -> str) (g : sgram A)
+         (pop pop' : queue A -> option (item A * queue A))
+         (U1 : list (item A)) (x y : item A) (U2 : list (item A)) (T : Z) (j : nat)
+         (c c2 : cache) (starts : nat * nat) (cleared : bool) (calls n : nat),
+  wf (sg_rs g) -> pop_ok_okb pop -> pop_ok_okb pop' ->
+  pops pop g (total (sg_rs g)) = U1 ++ x :: y :: U2 ->
+  markov_level g (ipt x) = Some T ->
+  j < length (level_strings (sg_omen g) T) ->
+  cache_ok (cp_fast (sg_omen g)) (og_max_level (sg_omen g)) c ->
+  cache_ok (cp_fast (sg_omen g)) (og_max_level (sg_omen g)) c2 ->
+  mc_starts (ip_at (sg_omen g)) (ln_at (sg_omen g)) (og_max_level (sg_omen g)) omen_first_object_extra = Some starts ->
+  length (skipn (S j) (level_strings (sg_omen g) T)) < calls ->
+  length (filter (below (iprob y)) (all_preterminals (sg_rs g))) <= n ->
+  let L := level_strings (sg_omen g) T in
+  exists f r,
+    interrupted upper_c omen_optimizer_max_length omen_first_object_extra session_quit_check_after_pop pop g (length U1) (S j) c =
+      Saved (stream upper_c g U1 ++ firstn (S j) L) f /\
+    resumed_session omen_optimizer_max_length omen_first_object_extra parent_around_strict cleared
+                    pop' g f calls c2 n = Some r /\
+    (In x (resumed_pops r) <-> peq (iprob x) (iprob y) = true) /\
+    (peq (iprob x) (iprob y) = true ->
+       exists B1 B2, resumed_pops r = B1 ++ x :: B2 /\ ~ In x B1 /\ ~ In x B2 /\
+         resumed_out upper_c session_omen_restored_before_loop g r =
+           skipn (S j) L ++ stream upper_c g B1 ++ L ++ stream upper_c g B2) /\
+    (peq (iprob x) (iprob y) = false -> ~ In x (resumed_pops r)) /\
+    (forall s, (forall z, In z (all_preterminals (sg_rs g)) -> z <> x -> ~ In s (pt_out upper_c g (ipt z))) ->
+       count_occ str_eq_dec ((stream upper_c g U1 ++ firstn (S j) L) ++
+                             resumed_out upper_c session_omen_restored_before_loop g r) s =
+       count_occ str_eq_dec L s + (if peq (iprob x) (iprob y) then count_occ str_eq_dec L s else 0)).
+Proof.
+  exact (fun A up g pop pop' U1 x y U2 T j c c2 starts cleared calls n Hwf Hp Hp' HU HT Hj Hc Hc2 Hs =>
+           tied_level_repeats up omen_optimizer_max_length omen_first_object_extra C15_source_first_object_range
+                     g Hwf pop pop' Hp Hp' U1 x y U2 HU T HT j Hj c c2 Hc Hc2 starts Hs cleared calls n).
+Qed.
+
+(* R18 inside the combined model: when the interrupted level is the last
+   pre-terminal of the run, the pop that follows returns None and nothing is
+   saved (the clause above needs a following pre-terminal y) *)
+Theorem C15_last_level_not_saved :
+  forall (A : palg) (upper_c : N -> str) (g : sgram A) pop (U1 : list (item A)) (x : item A) T j c starts,
+  wf (sg_rs g) -> pop_ok_okb pop ->
+  pops pop g (total (sg_rs g)) = U1 ++ [x] ->
+  markov_level g (ipt x) = Some T ->
+  j < length (level_strings (sg_omen g) T) ->
+  cache_ok (cp_fast (sg_omen g)) (og_max_level (sg_omen g)) c ->
+  mc_starts (ip_at (sg_omen g)) (ln_at (sg_omen g)) (og_max_level (sg_omen g)) omen_first_object_extra = Some starts ->
+  interrupted upper_c omen_optimizer_max_length omen_first_object_extra session_quit_check_after_pop pop g (length U1) (S j) c =
+    NotSaved (stream upper_c g U1 ++ firstn (S j) (level_strings (sg_omen g) T)).
+Proof.
+  exact (fun A up => last_level_not_saved up omen_optimizer_max_length omen_first_object_extra C15_source_first_object_range).
+Qed.
+
+(* Why the pop comes first (the mechanism named in the property: "the following
+   pop supplies the saved max probability so the interrupted level is not
+   regenerated"): with the quit flag tested at the TOP of the loop
+   (check_after_pop = false) the saved probability is the level's own, and the
+   resumed session ALWAYS pops the level's pre-terminal again and prints the
+   whole level once more after its remainder, tied with anything or not. *)
+Theorem C15_refuted_check_before_pop :
+  forall (A : palg) (upper_c : N -> str) (g : sgram A)
+         (pop pop' : queue A -> option (item A * queue A))
+         (U1 : list (item A)) (x y : item A) (U2 : list (item A)) (T : Z) (j : nat)
+         (c c2 : cache) (starts : nat * nat) (cleared : bool) (calls n : nat),
+  wf (sg_rs g) -> pop_ok_okb pop -> pop_ok_okb pop' ->
+  pops pop g (total (sg_rs g)) = U1 ++ x :: y :: U2 ->
+  markov_level g (ipt x) = Some T ->
+  j < length (level_strings (sg_omen g) T) ->
+  cache_ok (cp_fast (sg_omen g)) (og_max_level (sg_omen g)) c ->
+  cache_ok (cp_fast (sg_omen g)) (og_max_level (sg_omen g)) c2 ->
+  mc_starts (ip_at (sg_omen g)) (ln_at (sg_omen g)) (og_max_level (sg_omen g)) omen_first_object_extra = Some starts ->
+  length (skipn (S j) (level_strings (sg_omen g) T)) < calls ->
+  length (filter (below (iprob x)) (all_preterminals (sg_rs g))) <= n ->
+  let L := level_strings (sg_omen g) T in
+  exists f r,
+    interrupted upper_c omen_optimizer_max_length omen_first_object_extra false pop g (length U1) (S j) c =
+      Saved (stream upper_c g U1 ++ firstn (S j) L) f /\
+    sf_max_prob f = iprob x /\
+    resumed_session omen_optimizer_max_length omen_first_object_extra parent_around_strict cleared
+                    pop' g f calls c2 n = Some r /\
+    exists B1 B2, resumed_pops r = B1 ++ x :: B2 /\
+      resumed_out upper_c true g r = skipn (S j) L ++ stream upper_c g B1 ++ L ++ stream upper_c g B2.
+Proof.
+  exact (fun A up g pop pop' U1 x y U2 T j c c2 starts cleared calls n Hwf Hp Hp' HU HT Hj Hc Hc2 Hs =>
+           check_before_pop_regenerates up omen_optimizer_max_length omen_first_object_extra C15_source_first_object_range
+                     g Hwf pop pop' Hp Hp' U1 x y U2 HU T HT j Hj c c2 Hc Hc2 starts Hs cleared calls n).
+Qed.
+
+(* ... and concretely, on the NOT tied instance: the level's pre-terminal (0,0)
+   comes first in the resumed run and its 5 strings are printed again *)
+Theorem C15_refuted_check_before_pop_witness :
+  ex_sessions false 0x1p-1%float omen_first_object_extra =
+  Some ([[49%N]; [50%N]] ++ firstn 2 ex_L,
+        skipn 2 ex_L ++ ex_L ++ skipn (2 + length ex_L) (session_out ex_up pop_first_max (ex_g 0x1p-1%float)),
+        [[(0, 0)]; [(1, 1)]; [(0, 1)]; [(2, 0)]]).
+Proof. exact (ex_check_before_pop_regenerates omen_first_object_extra C15_source_first_object_range). Qed.
+
+(* "later quit/resume cycles do not replay that remainder again", inside the
+   combined model: the resumed session above ran the restored level to its end
+   (omen_exit false), so it carries on the save config
+   snd (sess_restore cleared cfg false); whatever probability m' a later quit
+   saves with it, the next run(load_session=True) restores no OMEN level.  Needs
+   the R7 repair (omen_number_cleared = true), like C15_no_replay. *)
+Theorem C15_later_resume_no_replay : omen_number_cleared = true ->
+  forall (A : palg) strict pop (g : sgram A) (f : session_file A) (m' : P A) calls c n r,
+  resumed_session omen_optimizer_max_length omen_first_object_extra strict omen_number_cleared pop g
+                  (mk_sfile m' (snd (sess_restore omen_number_cleared (sf_omen f) false))) calls c n = Some r ->
+  rr_rest r = [].
+Proof.
+  intros ->. exact (fun A strict => later_resume_no_replay omen_optimizer_max_length omen_first_object_extra strict true).
+Qed.
+
+(* the queue the correspondence runs the model with (it follows the order in
+   which the implementation popped) meets the heap contract for every order,
+   so the theorems above apply to every run the correspondence makes *)
+Theorem C15_follow_pop_ok :
+  forall (A : palg) (K : Type) (matches : item A -> K -> bool) (order : list K),
+  pop_ok_okb (pop_follow matches order).
+Proof. exact (fun A K => @pop_follow_ok A K). Qed.
+
+(* the hypotheses of C15_then_rest / C15_tied_level_repeats hold on concrete
+   binary64 instances (MarkovSessionFacts.ex_g: base structures M, D, E over the
+   OMEN model Gex; cut after the 2nd of the 5 strings of level 2, with
+   pre-terminals before and after the level), once WITHOUT and once WITH a tie
+   between the level and the pre-terminal popped after it *)
+Theorem C15_session_hypotheses_satisfiable :
+  ex_hypotheses 0x1p-1%float false /\ ex_hypotheses 1%float true.
+Proof. exact (conj ex_not_tied ex_tied). Qed.
+
+(* and the tied corner is real: the kernel runs both sessions of the model on
+   the tied instance; after the 3 remaining strings the level's pre-terminal
+   (0,0) is popped again and all 5 strings of the level are printed once more *)
+Theorem C15_tied_level_witness :
+  ex_sessions session_quit_check_after_pop 1%float omen_first_object_extra =
+  Some ([[49%N]; [50%N]] ++ firstn 2 ex_L,
+        skipn 2 ex_L ++ ex_L ++ skipn (2 + length ex_L) (session_out ex_up pop_first_max (ex_g 1%float)),
+        [[(0, 0)]; [(2, 0)]; [(1, 1)]; [(0, 1)]]).
+Proof. exact (ex_tied_level_regenerated omen_first_object_extra C15_source_first_object_range). Qed.
+
+Theorem C15_not_tied_witness :
+  ex_sessions session_quit_check_after_pop 0x1p-1%float omen_first_object_extra =
+  Some ([[49%N]; [50%N]] ++ firstn 2 ex_L,
+        skipn 2 ex_L ++ skipn (2 + length ex_L) (session_out ex_up pop_first_max (ex_g 0x1p-1%float)),
+        [[(1, 1)]; [(0, 1)]; [(2, 0)]]).
+Proof. exact (ex_not_tied_sessions omen_first_object_extra C15_source_first_object_range). Qed.
+
+(* What is now proved / what remains.
+   PROVED over one model (MarkovSession.v = Next.v run + Expand.v expansion +
+   Omen.v generator and save/load + the session file): C15_then_rest,
+   C15_tied_level_repeats (both for every ruleset, level, cut j, any two queues
+   meeting the heap contract, any sound memo tables), C15_last_level_not_saved
+   (R18), C15_later_resume_no_replay; the correspondence shards "session:" run
+   exactly these definitions against the real CrackingSession on every recorded
+   cut.
+   REMAINS outside the theorems: (1) a SECOND quit seen inside the restored
+   remainder is composed only at the level of the session file
+   (C15_requit_inside_restores_new) and of the generator (C15_continuation holds
+   for the state after any number of guesses), not as one multi-cycle theorem
+   over the combined model; (2) --limit together with --load (restore_omen
+   ignores the limit) is not modelled; (3) that a non-Markov pre-terminal's
+   output equals the product of its groups is C04's theorem about the same
+   Expand.expand, not restated here; (4) configparser / pickle round trips and
+   the heap's choice inside a group of equal probability are trusted / quantified
+   over (every pop meeting pop_ok_okb). *)
 
 Print Assumptions C15_continuation.
 Print Assumptions C15_state_roundtrip.
 Print Assumptions C15_refuted_stale.
+Print Assumptions C15_then_rest.
+Print Assumptions C15_tied_level_repeats.
+Print Assumptions C15_last_level_not_saved.
+Print Assumptions C15_follow_pop_ok.
+Print Assumptions C15_session_hypotheses_satisfiable.
+Print Assumptions C15_tied_level_witness.
+Print Assumptions C15_later_resume_no_replay.
+Print Assumptions C15_refuted_check_before_pop.
